@@ -118,6 +118,17 @@ DoMorph == "morph" \in Ops /\ recv.kind = "I" /\ arg.kind = "I" /\ \E f \in Filt
              Call("morph", [filter |-> f],
                   Morph(recv, arg, LAMBDA l : CASE f = "all" -> TRUE [] f = "none" -> FALSE [] OTHER -> l = f))
 DoNew == "new" \in Ops /\ Call("new", [k |-> 0], New(recv))
+\* constructors: the receiver's entries handed over in reverse order, with an overlapping duplicate, with a degenerate entry
+RawLists == IF recv.kind = "I"
+            THEN {recv.ents, Reverse(recv.ents)}
+                 \cup (IF recv.ents = <<>> THEN {} ELSE {Append(recv.ents, [recv.ents[1] EXCEPT !.e = @ + 1]),
+                                                        <<Iv(recv.ents[1].e, recv.ents[1].e, "x")>> \o recv.ents,
+                                                        Append(recv.ents, Iv(recv.ents[1].s + 1, recv.ents[1].s, "x"))})
+            ELSE {recv.ents, Reverse(recv.ents)}
+DoConstruct == "construct" \in Ops /\ \E raw \in RawLists, lo \in {recv.lo, 0}, hi \in {recv.hi, N + 1}, pad \in BOOLEAN :
+             LET c == ConsK(recv.kind, "t", raw, lo, hi)
+             IN Call("construct", [kind |-> recv.kind, raw |-> raw, lo |-> lo, hi |-> hi, pad |-> pad],
+                     [st |-> c.st, ret |-> IF c.st = "ok" THEN c.tier ELSE NoTier, post |-> recv, out |-> FALSE])
 \* continue the history with the tier the last call returned
 Adopt == Depth > 1 /\ out.op # "none" /\ out.st = "ok" /\ IsTier(out.ret) /\ out.ret # recv
          /\ recv' = out.ret /\ arg' = arg /\ out' = NoCall
@@ -128,7 +139,7 @@ Continue == Depth > 1 /\ out.op # "none" /\ ~(out.st = "ok" /\ IsTier(out.ret) /
 
 \* a call is made from a quiescent state (out = NoCall); Adopt/Continue return to one
 \* unary operations are explored with arg = NoTier only, binary ones with every second operand
-DoCall == \/ arg = NoTier /\ (DoCrop \/ DoErase \/ DoSpace \/ DoSpaceErase \/ DoEdit \/ DoEditRT \/ DoInsert \/ DoDelete \/ DoNew)
+DoCall == \/ arg = NoTier /\ (DoCrop \/ DoErase \/ DoSpace \/ DoSpaceErase \/ DoEdit \/ DoEditRT \/ DoInsert \/ DoDelete \/ DoNew \/ DoConstruct)
           \/ IsTier(arg) /\ (DoAppend \/ DoUnion \/ DoDiff \/ DoInter \/ DoMergeL \/ DoDejitter \/ DoMorph)
 Next == (out.op = "none" /\ DoCall) \/ Adopt \/ Continue
 
